@@ -463,7 +463,7 @@ func injectCase(e *ev.Env, c *ev.Case, h *helper, a injArgs, class string) {
 
 	// baseline: the same helper with a benign value teaches the header names
 	var bout []byte
-	if e.Guard(c, "inject|"+h.name, detail, func() { bout, _ = w.Serve(breq, nil) }) {
+	if guard(e, c, "inject|"+h.name, detail, func() { bout, _ = w.Serve(breq, nil) }) {
 		return
 	}
 	brs, berr := strict.ParseAll(bout, nil)
@@ -478,7 +478,7 @@ func injectCase(e *ev.Env, c *ev.Case, h *helper, a injArgs, class string) {
 	}
 
 	var out []byte
-	if e.Guard(c, "inject|"+h.name, detail, func() { out, _ = w.Serve(hreq, nil) }) {
+	if guard(e, c, "inject|"+h.name, detail, func() { out, _ = w.Serve(hreq, nil) }) {
 		e.Eval(1)
 		return
 	}
